@@ -54,8 +54,31 @@ def write_replay(ctx, name, obs):
     return path, reproduced
 
 
+_NATIVE_CACHE = {}
+MAX_NATIVE_RUNS = int(os.environ.get('PYVC_MAX_REPLAYS', '24'))
+
+
 def run_native(script, payload, timeout=120):
-    """Run /verif/replay/<script> under the repository's interpreter with a JSON payload."""
+    """Run /verif/replay/<script> under the repository's interpreter with a JSON payload.  Results are
+    cached per (script, searched target); a run of the checker starts at most MAX_NATIVE_RUNS native
+    searches (a change that breaks hundreds of obligations is reported all the same -- the remaining
+    replay files say that no search was started for them)."""
+    key_payload = dict(payload)
+    ob = key_payload.get('obligation')
+    if isinstance(ob, str):
+        # the bounded searches are per function / clause, not per path instance
+        key_payload['obligation'] = ob.split('@')[0]
+    key = (script, json.dumps(key_payload, sort_keys=True, default=str))
+    if key in _NATIVE_CACHE:
+        return _NATIVE_CACHE[key]
+    if len(_NATIVE_CACHE) >= MAX_NATIVE_RUNS:
+        return {'skipped': 'native search not started: more than %d refuted obligations in this run' % MAX_NATIVE_RUNS}
+    r = _run_native(script, payload, timeout)
+    _NATIVE_CACHE[key] = r
+    return r
+
+
+def _run_native(script, payload, timeout=120):
     repo = os.environ.get('VERIF_REPO', '/repo')
     cmd = ['/venv/bin/python', os.path.join(runner.VERIF, 'replay', script)]
     env = dict(os.environ, PYTHONPATH=repo + os.pathsep + runner.VERIF, VERIF_REPO=repo)
